@@ -19,7 +19,7 @@ Definition of_res (r : res) : rres := match r with Ok v => ROk v | BadArg i v =>
 Section Run.
   Variable off : Z -> Z.
 
-  (* codes: 0 fields, 1 DATE, 2 BOY, 3 BOM, 4 BOW, 5 BOD, 6 HMSINTERVAL, 7 MDINTERVAL *)
+  (* codes: 0 fields, 1 DATE, 2 BOY, 3 BOM, 4 BOW, 5 BOD, 6 HMSINTERVAL, 7 MDINTERVAL, 8 MILLISECOND (argument: now in ms) *)
   Definition model (code : Z) (a : list Z) : rres :=
     match code, a with
     | 0, [ts] => RList [YEAR off ts; MONTH off ts; DAY off ts; DOW off ts; LDOM off ts; HOUR off ts; MINUTE off ts;
@@ -31,6 +31,7 @@ Section Run.
     | 5, [ts; n] => of_res (BOD off ts n)
     | 6, [ts; h1; m1; s1; h2; m2; s2] => of_res (HMSINTERVAL off ts h1 m1 s1 h2 m2 s2)
     | 7, [ts; mo1; d1; mo2; d2] => of_res (MDINTERVAL off ts mo1 d1 mo2 d2)
+    | 8, [now_ms] => ROk (now_ms mod 1000)
     | _, _ => RErr
     end.
 
@@ -50,8 +51,12 @@ Section Run.
         if (h1 * 3600 + m1 * 60 + s1 <=? h2 * 3600 + m2 * 60 + s2) then v =? HMS_spec off ts h1 m1 s1 h2 m2 s2 else true
     | 7, [ts; mo1; d1; mo2; d2], ROk v =>
         if lex_le mo1 d1 mo2 d2 then v =? MD_spec off ts mo1 d1 mo2 d2 else true
+    | 8, [now_ms], ROk v => (0 <=? v) && (v <? 1000) && ((now_ms - v) mod 1000 =? 0)
     | _, _, RBad _ _ => true       (* argument errors are compared model-vs-code only *)
-    | _, _, RErr => true
+    (* the field functions are total on instants; the others may only fail where Python's datetime cannot represent the
+       result (year outside 1..9999), which the model reproduces *)
+    | 0, [_], RErr => false
+    | _, _, RErr => rres_eqb (model code a) RErr
     | _, _, _ => false
     end.
 
